@@ -442,7 +442,7 @@ FindingStrict == Real => Strict
 CtlClearAfterPoll == mut = "clearAfterPoll" => (NoStrandedCompletion /\ NeverStuckX)
 CtlIgnoreFlush    == mut = "ignoreFlush" => NeverStuckX
 CtlNoTimeout      == mut = "noTimeout" => TimerCovered
-CtlNoFlush        == mut = "noFlush" => Submitted
+CtlNoFlush        == mut = "noFlush" => (Submitted /\ NeverStuckX)
 \* the hypothetical repairs: which of them restores the strict property
 RepFlushSeesCompleted == mut = "flushSeesCompleted" => Strict
 RepDrainAfterBlocking == mut = "drainAfterBlocking" => Strict
